@@ -843,6 +843,10 @@ impl Indexable for ast::SimpleValue {
                     .values()
                     .filter_map(|value| value.index(ctx))
                     .collect();
+                // `[]<int>`, `[a, b]<Foo>`: the element type is spelled out
+                if let Some(element_typ) = list.r#type().and_then(|typ| typ.index(ctx)) {
+                    return Some(Type::List(Box::new(element_typ)));
+                }
                 value_types
                     .into_iter()
                     .next()
